@@ -1141,7 +1141,9 @@ impl ProtocolState {
     }
 
     fn is_connect_in_queue(&self) -> bool {
-        self.high_priority_operation_queue.iter().any(|id| self.is_connect_packet(*id))
+        // a CONNECT that is only partially encoded (current operation) has not been sent yet either
+        self.current_operation.map_or(false, |id| self.is_connect_packet(id)) ||
+            self.high_priority_operation_queue.iter().any(|id| self.is_connect_packet(*id))
     }
 
     fn handle_network_event_incoming_data(&mut self, context: &mut NetworkEventContext, data: &[u8]) -> GneissResult<()> {
